@@ -15,6 +15,7 @@ mod progen;
 use progen::run::*;
 use progen::*;
 use vh::*;
+use std::panic::{AssertUnwindSafe, catch_unwind};
 
 fn mk_fns() -> &'static str {
     "fn mk(a: int) -> option<int> {\n  if a < 0 { return option.none }\n  option.some(a)\n}\n\
@@ -286,6 +287,17 @@ fn main() {
     let base = probe_shapes(&mut ctx);
     // coverage-guided template families with their own oracles (harness/src/bg9cov.rs)
     bg9cov::run_templates(&mut ctx, "C23");
+    // the static rule of `?` as a model tie: the checker's verdict on every mixed-Try program vs `tryAccepted`
+    // (lean/AbraModel/TryLower.lean) on the operand / return type families
+    for (t, o, r) in bg9cov::try_mixed_cases() {
+        let verdict = match catch_unwind(AssertUnwindSafe(|| abra_core::check("main.abra", provider(&t.src, &[])))) {
+            Ok(Ok(())) => "accept",
+            Ok(Err(_)) => "reject",
+            Err(_) => "checker-panic",
+        };
+        ctx.count(&format!("trycompat:{verdict}"));
+        ctx.case(format!("trycompat {o} {r} #{}", t.name.replace(' ', "_")), verdict.to_string());
+    }
     let n = if ctx.quick() { 160 } else { 4000 };
     struct Job {
         prog: Program,
